@@ -567,16 +567,30 @@ def u_random(seed, n=14, nauthors=2, param_bias=True):
         r = rnd.random()
         ts = rnd.choice([10, 10, 11, 12, 15, 20, 20, 30, 1900000000])
         if r < 0.30:
-            kind = rnd.choice([30000, 30000, 39999])
-            tags = [["d", rnd.choice(NASTY_D + [b"x:y", b":"])]]
+            kind = rnd.choice([30000, 30000, 39999, 30001])
+            dv = rnd.choice(NASTY_D + [b"x:y", b":"])
+            tags = [["d", dv]]
+            x = rnd.random()
+            if x < 0.08:
+                tags = [[]] + tags                                   # an empty tag before the d tag
+            elif x < 0.16:
+                tags.append(["d", rnd.choice(NASTY_D)])              # a second d tag (the first one is the address)
+            elif x < 0.22:
+                tags = [["t", "x"]]                                  # no d tag at all: no address
+            elif x < 0.28:
+                tags = [["d"]]                                       # a d tag without a value
             if rnd.random() < 0.3:
                 tags.append(["t", rnd.choice(["x", "y"])])
         elif r < 0.45:
             kind = rnd.choice([0, 3, 10000, 19999])
             tags = []
         elif r < 0.65:
-            kind = rnd.choice([1, 4, 9999, 40000, 1059, 65535])
+            kind = rnd.choice([1, 4, 9999, 40000, 1059, 65535, 62])
             tags = []
+            if kind == 62:
+                tags.append(["relay", "ALL_RELAYS"])
+            if kind in (1, 40000) and rnd.random() < 0.3:
+                tags.append(["d", rnd.choice(NASTY_D)])              # a regular kind carrying a d tag
             shared = rnd.choice(NASTY_VALS)
             for _ in range(rnd.randint(0, 4)):
                 name = rnd.choice(LETTERS)
@@ -612,7 +626,8 @@ def u_random(seed, n=14, nauthors=2, param_bias=True):
                 if rnd.random() < 0.5:
                     tags.append(["e", ("ev", other_id())])
                 else:
-                    cands = [(p[0], p[1], p[3]) for p in plan if p[3] is not None and (is_repl(p[1]) or is_param(p[1]))]
+                    cands = [(p[0], p[1], p[3]) for p in plan if p[3] is not None and (is_repl(p[1]) or is_param(p[1]) or
+                                                                                     (rnd.random() < 0.25 and p[1] != 5))]
                     if not cands:
                         tags.append(["e", ("ev", other_id())])
                         continue
@@ -620,12 +635,18 @@ def u_random(seed, n=14, nauthors=2, param_bias=True):
                     if rnd.random() < 0.75:
                         cau = au  # mostly own targets, sometimes foreign
                     d = b""
-                    if is_param(ckind):
-                        d = ctags[0][1]
+                    dts = [t for t in ctags if len(t) >= 2 and t[0] == "d"]
+                    if dts and (is_param(ckind) or rnd.random() < 0.5):
+                        d = dts[0][1]
                         d = d if isinstance(d, bytes) else d.encode()
                         if len(d) > 400:
                             d = b"x"  # the marker key would exceed LMDB's 511-byte key limit
+                    elif is_repl(ckind) and rnd.random() < 0.15:
+                        d = b"x"      # a replaceable kind named with a non-empty d
                     tags.append(["a", ("addr", ckind, cau, d)])
+            if rnd.random() < 0.2:
+                # NIP-09 k tags (the kinds the requester says the targets have), anywhere in the list
+                tags.insert(rnd.randint(0, len(tags)), ["k", rnd.choice(["1", "5", "30000", "30023", "0"])])
             if rnd.random() < 0.06 and tags[0][0] == "e":
                 # a long request: hundreds of (repeated) targets; its last tag may be foreign
                 tags = tags[:1] + [tags[0]] * rnd.choice([255, 256, 300]) + tags[1:]
